@@ -12,6 +12,26 @@ pub enum Error {
 }
 pub type Result<T> = std::result::Result<T, Error>;
 
+/// stand-ins for the types Inp::from_input mentions for its within-word arm (not exercised by the
+/// harness: that arm compiles a nested automaton and is covered by the pipeline stand-in)
+pub struct Regex;
+impl Clone for Regex { fn clone(&self) -> Self { Regex } }
+pub struct RegexInternPool;
+impl RegexInternPool { pub fn lookup(&self, _id: RegexId) -> &Regex { unreachable!() } }
+pub struct DFA;
+impl DFA {
+    pub fn from_regex(_r: Regex, _p: &RegexInternPool) -> Result<DFA> { unreachable!() }
+    pub fn minimize(self) -> DFA { unreachable!() }
+    pub fn check_ambiguity_best_effort(&self) -> Result<()> { unreachable!() }
+}
+pub struct DFAInternPool;
+impl DFAInternPool { pub fn intern(&mut self, _d: DFA) -> DFAId { unreachable!() } }
+pub struct HashMap<K, V>(std::marker::PhantomData<(K, V)>);
+impl<K, V> HashMap<K, V> {
+    pub fn get(&self, _k: &K) -> Option<&V> { unreachable!() }
+    pub fn insert(&mut self, _k: K, _v: V) -> Option<V> { unreachable!() }
+}
+
 include!("../gen/items.rs");
 
 #[cfg(kani)]
@@ -143,6 +163,38 @@ mod harnesses {
                 assert!(a.get_fallback_level().is_none());
                 assert!(a.is_star());
             }
+        }
+    }
+
+    /// C02 / C11: an expected item of the regex becomes the automaton symbol with the same text,
+    /// description and `||` level; a placeholder becomes "any word"; an external command becomes a
+    /// compadd symbol exactly when it is marked zsh_compadd. Full domain of the three
+    /// non-nested variants of the extracted enum, loop-free.
+    #[kani::proof]
+    fn inp_from_input_keeps_labels() {
+        let sp = any_span();
+        let level: usize = kani::any();
+        let (a, b): (u32, u32) = (kani::any(), kani::any());
+        let has_descr: bool = kani::any();
+        let compadd: bool = kani::any();
+        let which: u8 = kani::any();
+        let input = match which % 3 {
+            0 => RegexInput::Literal { literal: Ustr(a), description: if has_descr { Some(Ustr(b)) } else { None }, fallback_level: level, span: sp },
+            1 => RegexInput::Nonterminal { nonterm: Ustr(a), fallback_level: level, span: sp },
+            _ => RegexInput::Command { cmd: Ustr(a), zsh_compadd: compadd, fallback_level: level, span: sp },
+        };
+        let pool = RegexInternPool;
+        let mut subdfas = DFAInternPool;
+        let mut cache: HashMap<RegexId, DFAId> = HashMap(std::marker::PhantomData);
+        let got = Inp::from_input(&input, &pool, &mut subdfas, &mut cache);
+        let want = match which % 3 {
+            0 => Inp::Literal { literal: Ustr(a), description: if has_descr { Some(Ustr(b)) } else { None }, fallback_level: level },
+            1 => Inp::Star,
+            _ => if compadd { Inp::Compadd { cmd: Ustr(a), fallback_level: level } } else { Inp::Command { cmd: Ustr(a), fallback_level: level } },
+        };
+        match got {
+            Ok(g) => assert!(g == want),
+            Err(_) => assert!(false),
         }
     }
 
